@@ -76,6 +76,10 @@ func (x *Exec) evalConversion(s *State, call *ast.CallExpr, to types.Type) *Term
 	v := x.eval(s, arg)
 	ts := x.u.sortOf(to)
 	if ts == v.Sort {
+		if isByteSlice(to) && !isByteSlice(from) {
+			// string -> []byte allocates
+			return x.freshBytes(s, v, to)
+		}
 		return withType(v, to)
 	}
 	if ts == SAny {
@@ -670,6 +674,9 @@ func (x *Exec) callByContractFull(s *State, c *Contract, name string, pnames []s
 		if rtypes[i] != nil {
 			r.GoType = rtypes[i]
 			x.assumeWellTyped(s, r, rtypes[i])
+			if isByteSlice(rtypes[i]) {
+				x.setAlias(r, x.fresh("al.r."+n, SBool))
+			}
 		}
 		outs[i] = r
 		envPost.bound[n] = r
